@@ -190,6 +190,24 @@ EXTRA3 = {
 for pid, (t, x) in EXTRA3.items():
     CLAIMED[pid]['technique'] += t
     CLAIMED[pid]['text'] += x
+# Round-8 additions (DESIGN.md §12.8)
+EXTRA4 = {
+ 'C01': ('; cut of every pause-handler consultation below the transfers by the unset return-after-error flag; cut of every "empty entry" return of a token reader by the nothing-stored edge of its own storage read',
+         ' A refund is never refused for a pause (no pause test outside the exemption); a reader reports an empty holding only when nothing is stored under the key (a credit adds the stored holding).'),
+ 'C02': ('; codec agreement of the counter reader and writer (shared with C15-R2)',
+         ' The counter that makes a nonce fresh is read with the codec it is written with.'),
+ 'C07': ('; codec agreement of the counter reader and writer (shared with C15-R2)',
+         ' The counter is read with the codec it is written with.'),
+ 'C11': ('; loop obligation for pre-sized lists of pointers (every turn stores its slot before the next one begins)',
+         ' A list made with make([]*T, n) and filled slot by slot has no nil hole left by a skipped turn.'),
+ 'C12': ('; grammar of the data strings emitted by the built-in functions (shared with C10-R1)',
+         ' The built-in functions\' own encoder emits Head("@" hex)* with nothing trimmed afterwards.'),
+ 'C16': ('; loop obligation for the persist charge of SaveKeyValue (every turn of the pair loop adds a PersistPerByte component, directly or through helpers that always do)',
+         ' Every listed pair of SaveKeyValue is charged its persist price, also when its value is unchanged.'),
+}
+for pid, (t, x) in EXTRA4.items():
+    CLAIMED[pid]['technique'] += t
+    CLAIMED[pid]['text'] += x
 NA = {}
 for i in range(1, 21):
     pid = 'C%02d' % i
